@@ -10,7 +10,11 @@ Definition keep_ct (ct : ctx_table) (m : mask) (name : str) : bool := keep (t_ar
 Definition proj_ev0 (ct : ctx_table) (m : mask) (e : ev) : list ev :=
   match e with
   | EAttr name _ _ => if keep_ct ct m name then [e] else []
-  | EDeferred slot srcs => match filter (fun x => keep_ct ct m (fst x)) srcs with [] => [] | srcs' => [EDeferred slot srcs'] end
+  | EDeferred slot srcs =>
+      (* the table holds what is left of it for this visitor; whether it is handed over at all is decided as the reader
+         decides it (a table without rows only to a visitor with all the interests of the slot's guard) *)
+      let srcs' := filter (fun x => keep_ct ct m (fst x)) srcs in
+      if table_delivered ct m slot srcs' then [EDeferred slot srcs'] else []
   | _ => [e]
   end.
 
@@ -132,7 +136,9 @@ Qed.
 Record attr_like (ct : ctx_table) (m : mask) (pe : ev -> list ev) : Prop := mkAL {
   al_attr : forall name r b, pe (EAttr name r b) = if keep_ct ct m name then [EAttr name r b] else [];
   al_flags : forall d s, pe (EFlags d s) = [EFlags d s];
-  al_def : forall slot srcs, pe (EDeferred slot srcs) = match filter (fun x => keep_ct ct m (fst x)) srcs with [] => [] | s' => [EDeferred slot s'] end;
+  al_def : forall slot srcs, pe (EDeferred slot srcs) =
+             if table_delivered ct m slot (filter (fun x => keep_ct ct m (fst x)) srcs)
+             then [EDeferred slot (filter (fun x => keep_ct ct m (fst x)) srcs)] else [];
   al_small : small pe;
 }.
 
@@ -153,7 +159,7 @@ Proof.
   constructor; try reflexivity.
   intros e. destruct e; cbn [proj_ev0]; try (right; eexists; reflexivity).
   - destruct (keep_ct ct m name); [right; eexists; reflexivity|left; reflexivity].
-  - destruct (filter (fun x => keep_ct ct m (fst x)) sources); [left; reflexivity|right; eexists; reflexivity].
+  - cbv zeta. destruct (table_delivered ct m slot (filter (fun x => keep_ct ct m (fst x)) sources)); [right; eexists; reflexivity|left; reflexivity].
 Qed.
 
 Lemma proj_ev_like T v ct m kc : attr_like ct m (proj_ev T v ct m kc).
@@ -161,7 +167,7 @@ Proof.
   constructor; try reflexivity.
   intros e. destruct e; cbn [proj_ev proj_ev0]; try (right; eexists; reflexivity).
   - destruct (keep_ct ct m name); [right; eexists; reflexivity|left; reflexivity].
-  - destruct (filter (fun x => keep_ct ct m (fst x)) sources); [left; reflexivity|right; eexists; reflexivity].
+  - cbv zeta. destruct (table_delivered ct m slot (filter (fun x => keep_ct ct m (fst x)) sources)); [right; eexists; reflexivity|left; reflexivity].
   - destruct (keep_ct ct m attr); [right; eexists; reflexivity|left; reflexivity].
   - destruct (keep_ct ct m attr); [right; eexists; reflexivity|left; reflexivity].
   - destruct (keep_ct ct m attr); [right; eexists; reflexivity|left; reflexivity].
@@ -222,22 +228,57 @@ Proof.
   rewrite <- filter_rev', filter_comm, filter_map_comm. reflexivity.
 Qed.
 
-Lemma deferred_R ct m pe st_m st_f : attr_like ct m pe -> R ct m pe st_m st_f ->
-  deferred_events ct st_m = flat_map pe (deferred_events ct st_f).
+(* a table that is handed to some visitor is handed to the full visitor *)
+Lemma has_rows_filter (srcs : list (str * list row)) (g : str * list row -> bool) :
+  has_rows (filter g srcs) = true -> has_rows srcs = true.
 Proof.
-  intros Hal HR. unfold deferred_events. induction (t_deferred ct) as [|slot l IH]; [reflexivity|].
-  cbn [flat_map]. rewrite flat_map_app, <- IH. f_equal.
-  rewrite (slot_sources_R ct m pe st_m st_f slot HR).
-  destruct (slot_sources ct st_f slot) as [|x srcs] eqn:E; [reflexivity|].
-  cbn [flat_map]. rewrite app_nil_r, (al_def _ _ _ Hal). reflexivity.
+  unfold has_rows. intros H. apply existsb_exists in H as (x & Hx & Hr). apply filter_In in Hx as [Hx _].
+  apply existsb_exists. exists x. split; assumption.
 Qed.
 
-Lemma loop_events_R ct m pe st_m st_f : attr_like ct m pe -> R ct m pe st_m st_f ->
-  loop_events ct st_m = flat_map pe (loop_events ct st_f).
+Lemma whole_of_In slot l w : whole_of slot l = Some w -> In (slot, w) l.
 Proof.
-  intros Hal HR. unfold loop_events. rewrite !flat_map_app.
+  induction l as [|[s0 w0] l IH]; cbn [whole_of]; [discriminate|].
+  destruct (str_eqb_spec slot s0) as [->|_].
+  - intros [= ->]. left; reflexivity.
+  - intros H. right. apply IH. exact H.
+Qed.
+
+Lemma whole_full ct except slot w : ctx_ok ct except = true -> whole_of slot (t_whole ct) = Some w ->
+  forallb (interested (t_interests ct)) w = true.
+Proof.
+  intros Hct Hw. pose proof (ctx_ok_whole _ _ Hct) as H. unfold whole_ok in H. rewrite forallb_forall in H.
+  exact (H _ (whole_of_In _ _ _ Hw)).
+Qed.
+
+Lemma table_delivered_full ct except m slot srcs (g : str * list row -> bool) : ctx_ok ct except = true ->
+  table_delivered ct m slot (filter g srcs) = true -> table_delivered ct (t_interests ct) slot srcs = true.
+Proof.
+  intros Hct. unfold table_delivered.
+  destruct (filter g srcs) as [|y ys] eqn:Ef; [discriminate|].
+  destruct srcs as [|x xs]; [discriminate|].
+  destruct (whole_of slot (t_whole ct)) as [w|] eqn:Ew; [|reflexivity].
+  intros _. rewrite (whole_full ct except slot w Hct Ew). apply orb_true_r.
+Qed.
+
+Lemma deferred_R ct except m pe st_m st_f : ctx_ok ct except = true -> attr_like ct m pe -> R ct m pe st_m st_f ->
+  deferred_events ct m st_m = flat_map pe (deferred_events ct (t_interests ct) st_f).
+Proof.
+  intros Hct Hal HR. unfold deferred_events. induction (t_deferred ct) as [|slot l IH]; [reflexivity|].
+  cbn [flat_map]. rewrite flat_map_app, <- IH. f_equal. cbv zeta.
+  rewrite (slot_sources_R ct m pe st_m st_f slot HR).
+  destruct (table_delivered ct (t_interests ct) slot (slot_sources ct st_f slot)) eqn:Efull.
+  - cbn [flat_map]. rewrite app_nil_r, (al_def _ _ _ Hal). reflexivity.
+  - destruct (table_delivered ct m slot (filter (fun x => keep_ct ct m (fst x)) (slot_sources ct st_f slot))) eqn:Em; [|reflexivity].
+    rewrite (table_delivered_full ct except m slot _ _ Hct Em) in Efull. discriminate.
+Qed.
+
+Lemma loop_events_R ct except m pe st_m st_f : ctx_ok ct except = true -> attr_like ct m pe -> R ct m pe st_m st_f ->
+  loop_events ct m st_m = flat_map pe (loop_events ct (t_interests ct) st_f).
+Proof.
+  intros Hct Hal HR. unfold loop_events. rewrite !flat_map_app.
   rewrite (flat_map_rev_small pe _ (al_small _ _ _ Hal)), <- (R_ev _ _ _ _ _ HR).
-  rewrite <- (deferred_R ct m pe st_m st_f Hal HR).
+  rewrite <- (deferred_R ct except m pe st_m st_f Hct Hal HR).
   destruct (t_flags_event ct); [|reflexivity].
   cbn [flat_map]. rewrite app_nil_r, (al_flags _ _ _ Hal), (R_dep _ _ _ _ _ HR), (R_syn _ _ _ _ _ HR). reflexivity.
 Qed.
@@ -252,30 +293,30 @@ Proof.
   intros HT. left. unfold spec_code. cbn [proj_ev].
   rewrite (keep_full (rt_method T) [] attr (tk_method T HT)).
   pose proof (plains_R (rt_code T) [] cm (proj_ev0 (rt_code T) cm) p attrs (tk_code T HT) (proj_ev0_like _ _) l_init l_init (R_init _ _ _)) as HR.
-  rewrite (frame_sources_R _ _ _ _ _ HR), (loop_events_R _ _ _ _ _ (proj_ev0_like _ _) HR). reflexivity.
+  rewrite (frame_sources_R _ _ _ _ _ HR), (loop_events_R _ [] _ _ _ _ (tk_code T HT) (proj_ev0_like _ _) HR). reflexivity.
 Qed.
 
 Lemma spec_code_R T p cm attr ms ml xr attrs : tok T ->
   spec_code p T cm attr ms ml xr attrs
   = (let st := spec_plains p (rt_code T) (t_interests (rt_code T)) attrs l_init in
-     ECode attr ms ml (filter (keep_ct (rt_code T) cm) (frame_sources st)) xr (flat_map (proj_ev0 (rt_code T) cm) (loop_events (rt_code T) st))).
+     ECode attr ms ml (filter (keep_ct (rt_code T) cm) (frame_sources st)) xr (flat_map (proj_ev0 (rt_code T) cm) (loop_events (rt_code T) (t_interests (rt_code T)) st))).
 Proof.
   intros HT. unfold spec_code.
   pose proof (plains_R (rt_code T) [] cm (proj_ev0 (rt_code T) cm) p attrs (tk_code T HT) (proj_ev0_like _ _) l_init l_init (R_init _ _ _)) as HR.
-  cbv zeta. rewrite (frame_sources_R _ _ _ _ _ HR), (loop_events_R _ _ _ _ _ (proj_ev0_like _ _) HR). reflexivity.
+  cbv zeta. rewrite (frame_sources_R _ _ _ _ _ HR), (loop_events_R _ [] _ _ _ _ (tk_code T HT) (proj_ev0_like _ _) HR). reflexivity.
 Qed.
 
 Lemma spec_rc_R T p v attr k c : tok T ->
   spec_rc p T v attr k c
   = ERc attr k (fst (fst c)) (snd (fst c))
       (match v_rc v k with
-       | Some m' => Some (flat_map (proj_ev0 (rt_rc T) m') (loop_events (rt_rc T) (spec_plains p (rt_rc T) (t_interests (rt_rc T)) (snd c) l_init)))
+       | Some m' => Some (flat_map (proj_ev0 (rt_rc T) m') (loop_events (rt_rc T) (t_interests (rt_rc T)) (spec_plains p (rt_rc T) (t_interests (rt_rc T)) (snd c) l_init)))
        | None => None
        end).
 Proof.
   intros HT. unfold spec_rc. destruct (v_rc v k) as [m'|]; [|reflexivity].
   pose proof (plains_R (rt_rc T) [] m' (proj_ev0 (rt_rc T) m') p (snd c) (tk_rc T HT) (proj_ev0_like _ _) l_init l_init (R_init _ _ _)) as HR.
-  rewrite (loop_events_R _ _ _ _ _ (proj_ev0_like _ _) HR). reflexivity.
+  rewrite (loop_events_R _ [] _ _ _ _ (tk_rc T HT) (proj_ev0_like _ _) HR). reflexivity.
 Qed.
 
 (* ---------- the attribute loop of a method or a class ---------- *)
@@ -291,7 +332,7 @@ Proof.
     cbn [proj_ev v_full v_rc]. rewrite Hk. cbn [option_map app].
     (* the full visitor's own projection is the identity *)
     pose proof (plains_R (rt_rc T) [] (t_interests (rt_rc T)) (proj_ev0 (rt_rc T) (t_interests (rt_rc T))) p (snd c) (tk_rc T HT) (proj_ev0_like _ _) l_init l_init (R_init _ _ _)) as HR0.
-    pose proof (loop_events_R _ _ _ _ _ (proj_ev0_like _ _) HR0) as Hid.
+    pose proof (loop_events_R _ [] _ _ _ _ (tk_rc T HT) (proj_ev0_like _ _) HR0) as Hid.
     rewrite <- Hid.
     destruct (v_rc v (l_rc st_f)); reflexivity.
   - unfold push_rc. cbn [l_rc]. congruence.
@@ -339,7 +380,7 @@ Proof.
       rewrite (spec_code_R T p cm name ms ml (exc_rows nexc exc) attrs HT). cbv zeta.
       (* the full visitor's own projection is the identity *)
       pose proof (plains_R (rt_code T) [] (t_interests (rt_code T)) (proj_ev0 (rt_code T) (t_interests (rt_code T))) p attrs (tk_code T HT) (proj_ev0_like _ _) l_init l_init (R_init _ _ _)) as HR0.
-      pose proof (loop_events_R _ _ _ _ _ (proj_ev0_like _ _) HR0) as Hid.
+      pose proof (loop_events_R _ [] _ _ _ _ (tk_code T HT) (proj_ev0_like _ _) HR0) as Hid.
       rewrite <- Hid.
       rewrite (filter_all (keep_ct (rt_code T) (t_interests (rt_code T)))) by (intros x; apply (keep_full (rt_code T) [] x (tk_code T HT))).
       reflexivity.
@@ -406,13 +447,13 @@ Proof.
     apply rcs_not_member. exact H.
 Qed.
 
-Lemma loop_not_member ct st : forallb not_member (l_events st) = true -> forallb not_member (loop_events ct st) = true.
+Lemma loop_not_member ct m st : forallb not_member (l_events st) = true -> forallb not_member (loop_events ct m st) = true.
 Proof.
   intros H. unfold loop_events. rewrite !forallb_app. rewrite forallb_forall in H.
   apply andb_true_intro. split; [|apply andb_true_intro; split].
   - apply forallb_forall. intros x Hx. apply H. apply in_rev. exact Hx.
   - unfold deferred_events. apply forallb_forall. intros x Hx. apply in_flat_map in Hx as (slot & _ & Hx).
-    destruct (slot_sources ct st slot); [destruct Hx|]. destruct Hx as [<-|[]]. reflexivity.
+    cbv zeta in Hx. destruct (table_delivered ct m slot (slot_sources ct st slot)); [|destruct Hx]. destruct Hx as [<-|[]]. reflexivity.
   - destruct (t_flags_event ct); reflexivity.
 Qed.
 
@@ -441,7 +482,7 @@ Proof.
   destruct (v_field v k) as [m|]; [|reflexivity]. cbn [option_map].
   pose proof (attrs_R T p v (rt_field T) [] m None None (m_attrs mb) HT (tk_field T HT) (or_intror (conj eq_refl eq_refl)) Hb
                 l_init l_init (R_init _ _ _) (fun _ => eq_refl)) as HR.
-  rewrite (loop_events_R _ _ _ _ _ (proj_ev_like T v (rt_field T) m None) HR). reflexivity.
+  rewrite (loop_events_R _ [] _ _ _ _ (tk_field T HT) (proj_ev_like T v (rt_field T) m None) HR). reflexivity.
 Qed.
 
 Lemma spec_method_proj T p v k mb : tok T -> rec_bound mb ->
@@ -453,7 +494,7 @@ Proof.
   destruct (v_method v k) as [m|]; [|reflexivity]. cbn [option_map].
   pose proof (attrs_R T p v (rt_method T) [] m (v_code v k) (Some (t_interests (rt_code T))) (m_attrs mb) HT (tk_method T HT) (or_introl eq_refl) Hb
                 l_init l_init (R_init _ _ _) (fun _ => eq_refl)) as HR.
-  rewrite (loop_events_R _ _ _ _ _ (proj_ev_like T v (rt_method T) m (v_code v k)) HR). reflexivity.
+  rewrite (loop_events_R _ [] _ _ _ _ (tk_method T HT) (proj_ev_like T v (rt_method T) m (v_code v k)) HR). reflexivity.
 Qed.
 
 Lemma spec_members_proj T v (skip : bool) (f ff : nat -> member -> ev) l :
@@ -485,7 +526,7 @@ Proof.
     pose proof (attrs_R T (h_pool h) v (rt_class T) [FIELDS; METHODS] (v_class v) None None (c_attrs c) HT (tk_class T HT)
                   (or_intror (conj eq_refl eq_refl)) Hcnt l_init l_init (R_init _ _ _) (fun _ => eq_refl)) as HR.
     rewrite proj_member_attr.
-    + exact (loop_events_R _ _ _ _ _ (proj_ev_like T v (rt_class T) (v_class v) None) HR).
+    + exact (loop_events_R _ [FIELDS; METHODS] _ _ _ _ (tk_class T HT) (proj_ev_like T v (rt_class T) (v_class v) None) HR).
     + apply loop_not_member. apply attrs_not_member. reflexivity.
   - apply spec_members_proj. intros k mb Hin. apply spec_field_proj; [exact HT|].
     pose proof (forallb_In _ _ _ Hf Hin) as Hw. unfold wf_member_b, wf_attrs_b in Hw.
